@@ -12,6 +12,7 @@ package simrt
 import (
 	"reflect"
 	"sync"
+	"sync/atomic"
 	"time"
 )
 
@@ -42,9 +43,30 @@ func Install(r Runtime) { rt = r }
 // Active reports whether a runtime is installed.
 func Active() bool { return rt != nil }
 
+// RealWG, when set, tracks goroutines started in passthrough mode (used by
+// the auxiliary race sweep, which runs programs on the real runtime); a panic
+// of such a goroutine is counted instead of ending the process.
+var (
+	RealWG     *sync.WaitGroup
+	RealPanics atomic.Int64
+)
+
 // Go replaces a go statement.
 func Go(fn func()) {
 	if rt == nil {
+		if wg := RealWG; wg != nil {
+			wg.Add(1)
+			go func() {
+				defer wg.Done()
+				defer func() {
+					if recover() != nil {
+						RealPanics.Add(1)
+					}
+				}()
+				fn()
+			}()
+			return
+		}
 		go fn()
 		return
 	}
